@@ -768,4 +768,191 @@ example :
 
 end ReloadIR
 
+/-! ### audit round (item 11): sequences, the converse of the 429 clause, well-formedness, examples -/
+section Audit
+open EgVerif.RateLimiterFilter
+
+/-- **MQTT request limiter over a whole packet sequence**: running `Limiter.request` over non-decreasing
+arrival times produces a reachable limiter history whose admissions are exactly the flags returned — so
+`cycle_bound` (≤ L admitted packets per period) holds for `Limiter.run`, not only for single steps. -/
+theorem limiter_run_reach (p : Policy) : ∀ (arr : List (Int × Int)) {s h lo}, Reach p s h lo →
+    Sorted lo (arr.map (·.1)) →
+    ∃ s' h' lo', Reach p s' h' lo' ∧ h'.take h.length = h ∧
+      (Limiter.request p s).run arr = (h'.drop h.length).map (·.2.permitted) ∧
+      (h'.drop h.length).map (·.1) = arr.map (·.1)
+  | [], s, h, lo, r, _ => ⟨s, h, lo, r, by simp, by simp [Limiter.run], by simp⟩
+  | (now, n) :: rest, s, h, lo, r, hs => by
+    simp only [List.map_cons, Sorted] at hs
+    obtain ⟨s', h', lo', r', ht, hrun, htimes⟩ := limiter_run_reach p rest (Reach.step now r hs.1) hs.2
+    refine ⟨s', h', lo', r', ?_, ?_, ?_⟩
+    · have := congrArg (List.take h.length) ht
+      simpa [List.take_take, List.take_append_of_le_length] using this
+    · have hd : h'.drop h.length = (now, (acquire p s now 1).2) :: h'.drop (h.length + 1) := by
+        have h1 : h' = (h ++ [(now, (acquire p s now 1).2)]) ++ h'.drop (h.length + 1) := by
+          conv_lhs => rw [← List.take_append_drop (h.length + 1) h']
+          rw [show h.length + 1 = (h ++ [(now, (acquire p s now 1).2)]).length by simp, ht]
+        conv_lhs => rw [h1]
+        simp
+      rw [hd]
+      simp only [Limiter.run, Limiter.acquire, List.map_cons]
+      rw [hrun]
+      simp
+    · have hd : h'.drop h.length = (now, (acquire p s now 1).2) :: h'.drop (h.length + 1) := by
+        have h1 : h' = (h ++ [(now, (acquire p s now 1).2)]) ++ h'.drop (h.length + 1) := by
+          conv_lhs => rw [← List.take_append_drop (h.length + 1) h']
+          rw [show h.length + 1 = (h ++ [(now, (acquire p s now 1).2)]).length by simp, ht]
+        conv_lhs => rw [h1]
+        simp
+      rw [hd]
+      simp only [List.map_cons]
+      rw [show h.length + 1 = (h ++ [(now, (acquire p s now 1).2)]).length by simp, htimes]
+
+/-- per period at most `L` packets of an MQTT request-limited connection are admitted, over the whole run -/
+theorem mqtt_run_cycle_bound {p : Policy} (wf : p.WF) (arr : List (Int × Int)) (hs : Sorted 0 (arr.map (·.1))) :
+    ∃ h : Hist, (Limiter.request p RateLimiter.init).run arr = h.map (·.2.permitted) ∧
+      h.map (·.1) = arr.map (·.1) ∧ ∀ c, cnt p.P h c ≤ p.L.toNat := by
+  obtain ⟨s', h', lo', r', _, hrun, ht⟩ := limiter_run_reach p arr (Reach.init (p := p)) hs
+  exact ⟨h', by simpa using hrun, by simpa using ht, fun c => cycle_bound wf r' c⟩
+
+theorem heapGet_heapSet_same : ∀ (h : Heap) (id : Nat) (l l' : Lim), heapGet h id = some l' →
+    heapGet (heapSet h id l) id = some l
+  | [], _, _, _, hl => by simp [heapGet] at hl
+  | e :: t, id, l, l', hl => by
+    by_cases he : e.1 = id
+    · simp [heapGet, heapSet, he]
+    · have hne : (e.1 == id) = false := by simpa using he
+      simp only [heapGet, List.find?_cons, hne] at hl
+      have ih := heapGet_heapSet_same t id l l' (by simpa [heapGet] using hl)
+      simp only [heapGet, heapSet, List.map_cons, hne, Bool.false_eq_true, if_false, List.find?_cons] at ih ⊢
+      exact ih
+
+/-- every limiter object of the heap is a reachable limiter, last asked at `last id` -/
+def HeapReach (h : Heap) (last : Nat → Int) : Prop :=
+  ∀ id l, heapGet h id = some l → ∃ hist, Reach l.policy l.state hist (last id)
+
+/-- one `Handle` keeps every limiter reachable (clock not running backwards for the limiter asked) -/
+theorem handle_keeps_reach (now : Nat → Int) (ms : List Bool) (rls : List (Option Nat)) (h h' : Heap)
+    (out : HOut) (last : Nat → Int) (hr : HeapReach h last) (hmono : ∀ id, last id ≤ now id)
+    (e : handle now ms rls h = some (h', out)) :
+    HeapReach h' (fun id => if out.asked = some id then now id else last id) := by
+  rcases handle_out_shape now ms rls h h' out e with ⟨rfl, rfl, _⟩ | ⟨id, l, h1, h2, h3, _⟩
+  · intro id l hl
+    simpa [noLimit] using hr id l hl
+  · subst h3
+    intro id' l' hl'
+    by_cases hid : id' = id
+    · subst hid
+      rw [heapGet_heapSet_same h id' _ l h2] at hl'
+      obtain ⟨hist, rh⟩ := hr id' l h2
+      have := Reach.step (now id') rh (hmono id')
+      cases hl'
+      simp only [h1, if_true]
+      exact ⟨_, this⟩
+    · rw [heapGet_heapSet_other h id id' _ hid] at hl'
+      have hne : out.asked ≠ some id' := by rw [h1]; intro hc; exact hid (Option.some.inj hc).symm
+      simp only [hne, if_false]
+      exact hr id' l' hl'
+
+/-- a sequence of requests through the filter (`reqs`: per request its match flags and the limiters' clocks) -/
+def handleSeq (rls : List (Option Nat)) : Heap → List (List Bool × (Nat → Int)) → Option Heap
+  | h, [] => some h
+  | h, (ms, now) :: rest =>
+    match handle now ms rls h with
+    | none => none
+    | some (h', _) => handleSeq rls h' rest
+
+/-- **`cycle_bound` for every limiter of the filter over any request sequence**: whatever rules the requests
+match, each limiter object stays a reachable limiter (so in each of its periods it released ≤ L of the
+requests routed to it), provided each limiter's clock does not run backwards. -/
+theorem handle_seq_reach (rls : List (Option Nat)) : ∀ (reqs : List (List Bool × (Nat → Int))) (h h' : Heap)
+    (last : Nat → Int), HeapReach h last →
+    (∀ r ∈ reqs, ∀ id, last id ≤ r.2 id) → (List.Pairwise (fun a b => ∀ id, a.2 id ≤ b.2 id) reqs) →
+    handleSeq rls h reqs = some h' →
+    ∃ last', HeapReach h' last' ∧ ∀ id l, heapGet h' id = some l → l.policy.WF → ∃ hist,
+      Reach l.policy l.state hist (last' id) ∧ ∀ c, cnt l.policy.P hist c ≤ l.policy.L.toNat
+  | [], h, h', last, hr, _, _, e => by
+    simp only [handleSeq, Option.some.injEq] at e
+    subst e
+    exact ⟨last, hr, fun id l hl wf => by
+      obtain ⟨hist, rh⟩ := hr id l hl
+      exact ⟨hist, rh, fun c => cycle_bound wf rh c⟩⟩
+  | (ms, now) :: rest, h, h', last, hr, hm, hp, e => by
+    simp only [handleSeq] at e
+    cases hh : handle now ms rls h with
+    | none => simp [hh] at e
+    | some pr =>
+      obtain ⟨h1, out⟩ := pr
+      simp only [hh] at e
+      have hr1 := handle_keeps_reach now ms rls h h1 out last hr (fun id => hm _ (List.mem_cons_self) id) hh
+      have hp' := List.pairwise_cons.mp hp
+      refine handle_seq_reach rls rest h1 h' _ hr1 ?_ hp'.2 e
+      intro r hrm id
+      by_cases ha : out.asked = some id
+      · simp only [ha, if_true]; exact hp'.1 r hrm id
+      · simp only [ha, if_false]; exact hm r (List.mem_cons_of_mem _ hrm) id
+
+/-- **429 exactly when refused** (both directions): the result is `rateLimited` iff a limiter was asked and
+it refused (the converse of the third clause of `reject_is_429`). -/
+theorem rateLimited_iff_refused (now : Nat → Int) (ms : List Bool) (rls : List (Option Nat)) (h h' : Heap)
+    (out : HOut) (e : handle now ms rls h = some (h', out)) :
+    out.result = "rateLimited" ↔
+      ∃ id l, out.asked = some id ∧ heapGet h id = some l ∧
+        (acquire l.policy l.state (now id) 1).2.permitted = false := by
+  constructor
+  · exact (reject_is_429 now ms rls h h' out e).2.2
+  · rintro ⟨id, l, ha, hl, hp⟩
+    rcases handle_out_shape now ms rls h h' out e with ⟨rfl, _, _⟩ | ⟨id', l', h1, h2, _, h4⟩
+    · simp [noLimit] at ha
+    · rw [h1] at ha
+      have hid : id' = id := Option.some.inj ha
+      subst hid
+      rw [h2] at hl
+      cases hl
+      rcases h4 with ⟨_, r, _⟩ | ⟨p', _, _, _⟩
+      · exact r
+      · rw [hp] at p'; cases p'
+
+/-- well-formed generation: one limiter per URL rule, none nil — what `handle`'s totalisation (a missing
+limiter entry reads as "no more rules") must never meet -/
+def GenWF (g : Gen) : Prop := g.rls.length = g.spec.urls.length ∧ ∀ r ∈ g.rls, r ≠ none
+
+/-- under `GenWF` and one match flag per rule, "not limited" really means that no rule matched: the
+totalised branches of `handle` (lists of different length) are not what answers -/
+theorem unlimited_only_if_unmatched (now : Nat → Int) (g : Gen) (ms : List Bool) (h : Heap) (wf : GenWF g)
+    (hms : ms.length = g.spec.urls.length) (e : handle now ms g.rls h = some (h, noLimit)) :
+    ∀ b ∈ ms, b = false := by
+  rcases handle_out_shape now ms g.rls h h noLimit e with ⟨_, _, hall⟩ | ⟨id, l, h1, _⟩
+  · have : ms.take g.rls.length = ms := by rw [wf.1, ← hms]; exact List.take_length
+    rwa [this] at hall
+  · simp [noLimit] at h1
+
+/-- `Init` / `Inherit` establish `GenWF` (under `Validate`'s guarantee that every rule has a policy, and a
+well-formed previous generation) -/
+theorem reload_establishes_wf (newSpec : Spec) (g : Gen) (heap : Heap) (next : Nat)
+    (hok : ∀ e ∈ heap, e.1 < next) (wf : GenWF g)
+    (hbind : ∀ u ∈ newSpec.urls, (bindPolicy newSpec u).isSome) :
+    let st := reload newSpec (some g) heap next
+    st.panicked = false ∧ st.rls.length = newSpec.urls.length := by
+  obtain ⟨h1, h2, _, _⟩ := reload_keeps_state newSpec g heap next hok wf.2 hbind
+  exact ⟨h1, h2⟩
+
+/-- non-vacuity of `spare_immediate`: one of two permits of period 0 is taken, the next arrival in that
+period meets the hypothesis -/
+example : ∃ s h lo, Reach ⟨2, 10, 0⟩ s h lo ∧ lo ≤ 3 ∧ cnt 10 h (3 / 10) < (2 : Int).toNat :=
+  ⟨_, _, _, Reach.step 0 Reach.init (le_refl _), by decide, by decide⟩
+
+/-- non-vacuity of `reload_keeps_state` / `reload_establishes_wf`: a previous generation with one rule and
+limiter 7, a new spec with that rule and another one -/
+example :
+    let pol : Pol := ⟨"p", "", "", 5, 0, 0⟩
+    let u0 : URLRule := ⟨[], "/a", "", "", ""⟩
+    let u1 : URLRule := ⟨["GET"], "", "/b", "", ""⟩
+    let g : Gen := ⟨⟨[pol], "p", [u0]⟩, [some 7]⟩
+    let heap : Heap := [(7, ⟨⟨5, 10, 0⟩, ⟨0, 3⟩⟩)]
+    (∀ e ∈ heap, e.1 < 9) ∧ GenWF g ∧ (∀ u ∈ [u0, u1], (bindPolicy ⟨[pol], "p", [u0, u1]⟩ u).isSome) ∧
+    (reload ⟨[pol], "p", [u0, u1]⟩ (some g) heap 9).rls = [some 7, some 9] := by
+  refine ⟨by decide, ⟨by decide, by decide⟩, by decide, by decide⟩
+
+end Audit
+
 end EgVerif.C09
